@@ -61,6 +61,9 @@ class PE:
                 return UNDEF
             if e.id == "NULL":
                 return NULLV
+            t = self._module_text(e)
+            if t is not None:
+                return _c(t)
             return ("sym", e.id)
         if isinstance(e, ast.UnaryOp) and isinstance(e.op, ast.USub):
             v = self.ev(e.operand, env)
@@ -91,6 +94,9 @@ class PE:
                     return _c(-math.inf)
             if fn in ("math.nan",):
                 return NAN
+            folded = self._fold_host(e, fn, env)
+            if folded is not None:
+                return folded
             callee = self._callee(e)
             if callee is not None and self.depth < 4 and not e.keywords and not any(isinstance(a, ast.Starred) for a in e.args):
                 vals = [self.ev(a, env) for a in e.args]
@@ -106,6 +112,88 @@ class PE:
         if self._touches_subst(e):
             raise _Giveup
         return ("sym", norm(e))
+
+    _STR_METHODS = ("strip", "lstrip", "rstrip", "lower", "upper", "startswith", "endswith", "isdigit", "isascii")
+
+    def _fold_host(self, e: ast.Call, fn: str, env: Dict[str, Any]) -> Optional[Tuple]:
+        """Constant folding of pure host operations on constant operands: str methods, float(text), a module-level
+        compiled pattern matched against constant text, and group() of that match."""
+        try:
+            if fn == "float" and len(e.args) == 1 and not e.keywords:
+                v = self.ev(e.args[0], env)
+                if v[0] == "c" and isinstance(v[2], str):
+                    try:
+                        r = float(v[2])
+                    except ValueError:
+                        raise _Giveup
+                    return NAN if r != r else _c(r)
+                return None
+            if not isinstance(e.func, ast.Attribute) or e.keywords:
+                return None
+            recv = e.func.value
+            attr = e.func.attr
+            if attr in ("match", "fullmatch", "search") and isinstance(recv, ast.Name) and len(e.args) == 1:
+                pat = self._module_pattern(recv.id)
+                if pat is None:
+                    return None
+                v = self.ev(e.args[0], env)
+                if v[0] != "c" or not isinstance(v[2], str):
+                    return None
+                m = getattr(pat, attr)(v[2])
+                return _c(None) if m is None else ("match", m)
+            if attr == "group" and isinstance(recv, ast.Name) and recv.id in env and env[recv.id][0] == "match":
+                args = [self.ev(a, env) for a in e.args]
+                if all(a[0] == "c" and isinstance(a[2], int) for a in args):
+                    return _c(env[recv.id][1].group(*[a[2] for a in args]))
+                return None
+            if attr in self._STR_METHODS:
+                v = self.ev(recv, env)
+                if v[0] != "c" or not isinstance(v[2], str):
+                    return None
+                args = [self.ev(a, env) for a in e.args]
+                if all(a[0] == "c" and isinstance(a[2], str) for a in args):
+                    return _c(getattr(v[2], attr)(*[a[2] for a in args]))
+        except _Giveup:
+            return None
+        return None
+
+    def _module_value(self, name: str, depth: int = 0) -> Optional[ast.AST]:
+        for st in getattr(getattr(self.f.module, "tree", None), "body", []):
+            if isinstance(st, ast.Assign) and len(st.targets) == 1 and isinstance(st.targets[0], ast.Name) and st.targets[0].id == name:
+                return st.value
+        return None
+
+    def _module_text(self, e: ast.AST, depth: int = 0) -> Optional[str]:
+        """A module-level text constant: a literal, a name bound to one, or a concatenation of those."""
+        if depth > 6:
+            return None
+        if isinstance(e, ast.Constant) and isinstance(e.value, str):
+            return e.value
+        if isinstance(e, ast.Name):
+            v = self._module_value(e.id)
+            return None if v is None else self._module_text(v, depth + 1)
+        if isinstance(e, ast.BinOp) and isinstance(e.op, ast.Add):
+            a, b = self._module_text(e.left, depth + 1), self._module_text(e.right, depth + 1)
+            return None if a is None or b is None else a + b
+        if isinstance(e, ast.Call) and norm(e.func) == "re.escape" and len(e.args) == 1 and not e.keywords:
+            import re as _re
+
+            a = self._module_text(e.args[0], depth + 1)
+            return None if a is None else _re.escape(a)
+        return None
+
+    def _module_pattern(self, name: str):
+        import re as _re
+
+        v = self._module_value(name)
+        if isinstance(v, ast.Call) and norm(v.func) == "re.compile" and len(v.args) == 1 and not v.keywords:
+            t = self._module_text(v.args[0])
+            if t is not None:
+                try:
+                    return _re.compile(t)
+                except _re.error:
+                    return None
+        return None
 
     def _touches_subst(self, e: ast.AST) -> bool:
         return any(self.subst(x) is not None for x in ast.walk(e))
@@ -345,7 +433,7 @@ def sites(ctx, where: Callable[[Func], bool]):
                     continue
                 par = getattr(n, "_parent", None)
                 var = norm(par.targets[0]) if isinstance(par, ast.Assign) and len(par.targets) == 1 else "value"
-                yield f, f"{f.qual}:{var}", n.lineno, absent, present, tgt, (n if var != "value" else None)
+                yield f, f"{f.qual}:{var}", n.lineno, absent, present, tgt, (n if var != "value" else None), n
             # statement form: `if <missing>: return D` then the general path
             if isinstance(n, ast.If) and not n.orelse and len(n.body) == 1 and isinstance(n.body[0], ast.Return) and n.body[0].value is not None:
                 p = _presence(n.test)
@@ -364,7 +452,7 @@ def sites(ctx, where: Callable[[Func], bool]):
                 tgt = {id(x) for s in rest for x in _subscripts(s, seq) if norm(x.slice) == idx}
                 if not tgt:
                     continue
-                yield f, f"{f.qual}:return", n.lineno, n.body[0].value, rest, tgt, None
+                yield f, f"{f.qual}:return", n.lineno, n.body[0].value, rest, tgt, None, None
 
 
 def _decide(ctx, f: Func, absent: ast.AST, present, tgt) -> Tuple[Optional[Tuple], Optional[Tuple]]:
@@ -447,6 +535,23 @@ def _downstream(ctx, f: Func, site: ast.AST, var: str, d: Tuple, x: Tuple) -> st
     return "differ"
 
 
+def _enclosing_agrees(ctx, f: Func, expr: ast.AST, d: Tuple, x: Tuple) -> bool:
+    """The decision is an operand of a larger expression (`return parse(to_string(args[0]) if args else "")`): fold that
+    expression with the value for a missing argument and with the value for `undefined`; True when both fold to the
+    same constant."""
+    top = expr
+    while not isinstance(getattr(top, "_parent", None), ast.stmt) and getattr(top, "_parent", None) is not None:
+        top = top._parent
+    if top is expr:
+        return False
+    try:
+        ra = PE(ctx, f, lambda e: d if e is expr else None).ev(top, {})
+        rb = PE(ctx, f, lambda e: x if e is expr else None).ev(top, {})
+    except _Giveup:
+        return False
+    return ra[0] in ("c", "nan") and _same(ra, rb)
+
+
 def _bind_params(ctx, f: Func, d: Tuple, x: Tuple) -> List[Tuple[int, Tuple, Tuple]]:
     """When either side is a parameter of helper f, evaluate both per call site of f."""
     params = [a.arg for a in f.node.args.args]
@@ -520,7 +625,7 @@ def rule_missing_is_undefined(ctx, rep, rid: str, where: Callable[[Func], bool],
     _control(ctx)
     judged = skipped = 0
     used = set()
-    for f, key, line, absent, present, tgt, site in sites(ctx, where):
+    for f, key, line, absent, present, tgt, site, expr in sites(ctx, where):
         d, x = _decide(ctx, f, absent, present, tgt)
         if d is None or x is None:
             skipped += 1
@@ -549,6 +654,9 @@ def rule_missing_is_undefined(ctx, rep, rid: str, where: Callable[[Func], bool],
         if key in legit:
             used.add(key)
             rep.ok(rid, key, {"missing": _show(d), "undefined_gives": _show(x), "legitimately_different": legit[key]})
+            continue
+        if expr is not None and len(pairs) == 1 and _enclosing_agrees(ctx, f, expr, d, x):
+            rep.ok(rid, key, {"missing": _show(d), "undefined_gives": _show(x), "then": "the expression the value is handed to gives the same result for both"})
             continue
         var = key.rsplit(":", 1)[1]
         if site is not None and var.isidentifier() and len(pairs) == 1:
@@ -605,7 +713,7 @@ def _control(ctx) -> None:
     mod.functions = {"to_int": f_to, "m": f_m}
     _T.funcs = [f_to, f_m, f_h]
     got = {}
-    for f, key, line, absent, present, tgt, _ in sites(_Ctx, lambda f: f.name in ("m", "h")):
+    for f, key, line, absent, present, tgt, _, _e in sites(_Ctx, lambda f: f.name in ("m", "h")):
         d, x = _decide(_Ctx, f, absent, present, tgt)
         if d is None or x is None:
             continue
